@@ -2,10 +2,12 @@
 import sup
 
 RULE = ("one case = (selector, content class, chunk of the length ladder); ladder = 0..40, 127..131, 255..259, 2^p +-{0,1,2} for p=6..17 (quick) / 6..21 (thorough); "
-        "10 content classes; selectors zlib, bzip2, LZMA, sparse, PKWare, sparse+zlib, sparse+bzip2 (+ huffman/implode expected to refuse, + 6 ADPCM combinations "
+        "10 content classes; selectors zlib, bzip2, LZMA, sparse, PKWare, sparse+zlib, sparse+bzip2 (+ huffman/implode expected to refuse, + 12 ADPCM combinations incl. ADPCM+PKWare 0x48/0x88 "
         "for length/interleaving: sine, ramp, loud-onset transients in left/right/both channels, noise); in every tier 4 large units per selector (0.7..2 MiB, crossing codec block sizes), "
         "break-even inputs, ratio-window inputs (constant fills whose length is steered to len/compressed = T*c-1, T*c, T*c+1, mid-window, T*c+c-1, (T+1)*c, (T+1)*c+1 for the whole-number limits T in {500, 999, 1000, 2000} of the default safety policy; counters ratio_window_inputs|T|pos), and 560 repeated decompress() calls (> 1 GiB cumulative) that must keep answering identically. Oracle: len(out) <= len(in); out == in or out[0] == selector; decompress and decompress_secure (fresh SessionTracker) return the "
-        "input. distinct = distinct (selector, class, chunk) triples executed.")
+        "input. Selector 0 (none): every class x ladder length (+ two large units) is stored as given and comes back through decompress / decompress_secure with selector 0 (counters none_*). "
+        "Threads: 8 (quick) / 12 (thorough) threads run round trips of every lossless and ADPCM selector (PKWare excluded) against ONE shared SessionTracker, legacy decompress() calls in between, workload <= half the session cap: "
+        "every call must return the bytes the same call returns alone and none may fail that succeeds alone (counters threads_*). distinct = distinct (selector, class, chunk) triples executed.")
 ASSUME = ["native run only (the code under test has a 30 s wall-clock decompression limit)", "compress -> Err is allowed and tallied per selector"]
 
 
